@@ -28,6 +28,8 @@ def profiles(K, seed):
       'random/random': (np.round(rng.uniform(0.5, 1.5, K), 3), np.round(rng.uniform(0.5, 1.5, K), 3)),
       'linear/zero': (np.linspace(1.4, 0.8, K), np.zeros(K)),
       'bulge/const': (1.0 + 0.4 * np.sin(np.pi * np.arange(K) / max(K - 1, 1)), np.full(K, 1.1)),
+      # a profile given as INTEGER literals (dtype int64) against a float profile: the library must treat it as the same numbers
+      'integers/linear': (np.arange(K, 0, -1) + np.array([0, 2] * K)[:K], np.linspace(0.6, 1.5, K)),
       'zigzag/bulge': (1.0 + 0.2 * (-1.0) ** np.arange(K), 1.2 - 0.3 * np.sin(np.pi * np.arange(K) / max(K - 1, 1))),
   }
 
@@ -39,7 +41,7 @@ def task_split(ctx, cfg, levels, lname, kind, pname, tref1, tref2, orography, ex
   grid = coords.horizontal
   K = coords.vertical.layers
   base, zm = models.admissible_masks(grid)
-  tref1 = np.asarray(tref1, float); tref2 = np.asarray(tref2, float)
+  tref1 = np.asarray(tref1, dtype=(np.int64 if pname.startswith('integers') else float)); tref2 = np.asarray(tref2, float)
   rng = np.random.default_rng(11)
   oro = (rng.uniform(-0.3, 0.3, grid.modal_shape) * base) if orography else np.zeros(grid.modal_shape)
   cls = {'dry': pe.PrimitiveEquations, 'time': pe.PrimitiveEquationsWithTime, 'moist': pe.MoistPrimitiveEquations,
@@ -96,7 +98,7 @@ def task_split(ctx, cfg, levels, lname, kind, pname, tref1, tref2, orography, ex
     else:
       free = np.broadcast_to(base, ms); lo, hi = -1.0, 1.0
     tr_vars.append(PolyArr.variables(sp, t, ms, lo, hi, free=free))
-  shift = (tref1 - tref2) * SQRT4PI          # T'_2 = T'_1 + (Tref1 - Tref2): same absolute temperature
+  shift = (tref1.astype(float) - tref2) * SQRT4PI          # T'_2 = T'_1 + (Tref1 - Tref2): same absolute temperature
 
   def total(eq, v, d, t, p, *trs):
     trd = dict(zip(tracers, trs))
@@ -134,6 +136,7 @@ def make_tasks(tier, seed):
   add(cfg3, 'dy3', 'dry', 'const/linear', True, False)
   add(cfg3, 'dy2', 'dry', 'random/random', False, True)
   add(cfg3, 'dy3', 'dry', 'bulge/const', False, False)
+  add(cfg3, 'dy3', 'dry', 'integers/linear', True, False)
   add(cfgf, 'dy3', 'time', 'zigzag/bulge', True, False)
   add(cfgf, 'eq2', 'time', 'const/const', True, False)
   add(cfg3, 'dy2', 'moist', 'const/linear', True, False, q_mode='general')
